@@ -24,7 +24,7 @@ RULE = ("matrix kinds (incl. exactly-zero rows) × cost kinds {zero, positive, n
 TRUSTED = [
     "Lean 4.33 kernel; axioms propext, Classical.choice, Quot.sound",
     "exact model Model/Gram.lean (ccqrModel, geSqrt) tied to CCQR.fit / qr_reflector by ε-acceptance of tapped traces",
-    "IEEE-754 rounding not modelled: budget 1e-9·scale; after a pivot whose exact residual is zero but whose float "
+    "IEEE-754 rounding not modelled: per-step budget 1e-12·max(scale·max(1, scale/ρ_min), |cost|max) (DESIGN §3); after a pivot whose exact residual is zero but whose float "
     "residual is rounding noise the rest of the trace is not judged (exactly zero rows stay exact and are judged)",
 ]
 ASSUMPTIONS = ["inputs exactly representable (integers, quarters, eighths)"]
